@@ -59,6 +59,7 @@ func heldSuffix(fs factSet, suffix, mode string) bool {
 		if i := strings.Index(p, "["); i >= 0 {
 			p = p[:i]
 		}
+		p = strings.TrimSuffix(strings.TrimSuffix(p, ".RWMutex"), ".Mutex")
 		if strings.HasSuffix(p, suffix) && (mode == "" || mode == m) {
 			return true
 		}
